@@ -92,6 +92,23 @@ pub struct Scn {
     /// readers: number of operations the source may be asked for before it starts failing (0 = unlimited)
     #[serde(default)]
     pub op_budget: u64,
+    /// readers: the source returns at most this many bytes per read call (0 = unlimited)
+    #[serde(default)]
+    pub src_chunk: usize,
+    /// LZMA2: dictionary size (0 = 64 KiB) and preset dictionary length (0 = 2000)
+    #[serde(default)]
+    pub dict_size: u32,
+    #[serde(default)]
+    pub preset_len: usize,
+}
+
+impl Scn {
+    fn dict(&self) -> u32 {
+        if self.dict_size == 0 { MT_DICT } else { self.dict_size }
+    }
+    fn preset_dict(&self) -> Vec<u8> {
+        gen::data("text", if self.preset_len == 0 { 2000 } else { self.preset_len }, 77)
+    }
 }
 
 // ------------------------------------------------------------------ policies
@@ -238,10 +255,14 @@ fn make_policy(p: &Pol, rep: Arc<Mutex<GRep>>) -> Box<dyn Policy> {
 // ------------------------------------------------------------------ stream construction
 pub const MT_DICT: u32 = 1 << 16;
 
-fn lzma2_opts() -> LZMA2Options {
+fn lzma2_opts_d(dict: u32) -> LZMA2Options {
     let mut o = LZMA2Options::with_preset(0);
-    o.lzma_options.dict_size = MT_DICT;
+    o.lzma_options.dict_size = dict;
     o
+}
+
+fn lzma2_opts() -> LZMA2Options {
+    lzma2_opts_d(MT_DICT)
 }
 
 fn unit_data(u: usize, len: usize, class: Option<&str>, seed: u64) -> Vec<u8> {
@@ -265,9 +286,9 @@ pub fn build_lzma2_stream(s: &Scn) -> (Vec<u8>, Vec<Vec<u8>>) {
     let mut first_of_unit = 0usize;
     let mut p_marks = 0usize;
     let opts = |first: bool| {
-        let mut o = lzma2_opts();
+        let mut o = lzma2_opts_d(s.dict());
         if first && s.preset {
-            o.lzma_options.preset_dict = Some(preset_dict());
+            o.lzma_options.preset_dict = Some(s.preset_dict());
         }
         o
     };
@@ -276,8 +297,10 @@ pub fn build_lzma2_stream(s: &Scn) -> (Vec<u8>, Vec<Vec<u8>>) {
             gen::data("random", s.unit_len, s.seed.wrapping_add(i as u64 * 31 + 5))
         } else if s.preset && unit_no == 0 && i == first_i {
             // matches reach back into the preset dictionary
-            let p = preset_dict();
-            p[100..100 + s.unit_len.min(1500)].to_vec()
+            let p = s.preset_dict();
+            // refer to the END of the preset dictionary: that is the part every decoder must keep
+            let n = s.unit_len.min(1500).min(p.len());
+            p[p.len() - n..].to_vec()
         } else {
             // a dependent chunk repeats its unit's first chunk, so its matches cross the chunk boundary
             unit_data(first_i, s.unit_len, s.data_class.as_deref(), s.seed)
@@ -345,7 +368,7 @@ pub fn build_lzma2_stream(s: &Scn) -> (Vec<u8>, Vec<Vec<u8>>) {
     }
     if p_marks > 0 {
         // rewrite every 0xA0..0xBF chunk (state reset) into 0xC0..0xDF (state + props reset, same props)
-        let props = lzma2_opts().lzma_options.get_props();
+        let props = lzma2_opts_d(s.dict()).lzma_options.get_props();
         let mut out = Vec::with_capacity(all.len() + 8);
         let mut i = 0;
         let mut shift_at: Vec<usize> = Vec::new();
@@ -448,6 +471,8 @@ pub fn build_lzip_stream(s: &Scn) -> (Vec<u8>, Vec<Vec<u8>>) {
 pub struct BudgetSource {
     inner: std::io::Cursor<Vec<u8>>,
     pub st: Arc<Mutex<BudgetState>>,
+    /// at most this many bytes per read call (0 = unlimited): a legal short-reading source
+    max_read: usize,
 }
 #[derive(Default, Debug)]
 pub struct BudgetState {
@@ -478,7 +503,8 @@ impl Read for BudgetSource {
                 st.reads.push((p, b.len()));
             }
         }
-        self.inner.read(b)
+        let n = if self.max_read > 0 { b.len().min(self.max_read) } else { b.len() };
+        self.inner.read(&mut b[..n])
     }
 }
 impl std::io::Seek for BudgetSource {
@@ -590,6 +616,9 @@ pub fn run_scenario(s: &Scn) -> Value {
             let drop_after = s.drop_after;
             let preset = s.preset;
             let calls_after_err = s.calls_after_err;
+            let src_chunk = s.src_chunk;
+            let dict = s.dict();
+            let pd = s.preset_dict();
             // single-threaded reference result for the same stream (the property is MT == ST)
             {
                 let mut st_out = Vec::new();
@@ -599,8 +628,8 @@ pub fn run_scenario(s: &Scn) -> Value {
                         Err(_) => false,
                     }
                 } else {
-                    let pd = preset_dict();
-                    let mut r = LZMA2Reader::new(stream.as_slice(), MT_DICT, if preset { Some(pd.as_slice()) } else { None });
+                    let pd = s.preset_dict();
+                    let mut r = LZMA2Reader::new(stream.as_slice(), s.dict(), if preset { Some(pd.as_slice()) } else { None });
                     r.read_to_end(&mut st_out).is_ok()
                 };
                 let mut o = obs.lock().unwrap();
@@ -661,7 +690,7 @@ pub fn run_scenario(s: &Scn) -> Value {
                 }
                 if lz {
                     let bst3 = bst2.clone();
-                    let src = BudgetSource { inner: std::io::Cursor::new(stream), st: bst2 };
+                    let src = BudgetSource { inner: std::io::Cursor::new(stream), st: bst2, max_read: src_chunk };
                     let made = LZIPReaderMT::new(src, workers);
                     o2.lock().unwrap().seeks_at_new = bst3.lock().unwrap().seeks.len();
                     match made {
@@ -677,10 +706,10 @@ pub fn run_scenario(s: &Scn) -> Value {
                         }
                     }
                 } else {
-                    let pd = preset_dict();
+                    let src = BudgetSource { inner: std::io::Cursor::new(stream), st: bst2, max_read: src_chunk };
                     let mut r = LZMA2ReaderMT::new(
-                        stream.as_slice(),
-                        MT_DICT,
+                        src,
+                        dict,
                         if preset { Some(pd.as_slice()) } else { None },
                         workers,
                     );
@@ -716,9 +745,10 @@ pub fn run_scenario(s: &Scn) -> Value {
             let seed = s.seed;
             let total: usize = calls.iter().filter(|c| c.op == "write").map(|c| c.n).sum();
             let preset_w = s.preset;
+            let pd_w = s.preset_dict();
             let input = if preset_w {
                 // data that resembles the preset dictionary: a unit encoded against it would refer back into it
-                let p = preset_dict();
+                let p = s.preset_dict();
                 (0..total).map(|i| p[(i * 3 + (i / 700) * 11) % p.len()]).collect::<Vec<u8>>()
             } else {
                 match &class {
@@ -792,7 +822,7 @@ pub fn run_scenario(s: &Scn) -> Value {
                     o.lzma_options.dict_size = MT_DICT.min(unit.max(4096) as u32);
                     o.chunk_size = NonZeroU64::new(unit as u64);
                     if preset_w {
-                        o.lzma_options.preset_dict = Some(preset_dict());
+                        o.lzma_options.preset_dict = Some(pd_w.clone());
                     }
                     drive!(LZMA2WriterMT::new(sink, o, workers).unwrap());
                 }
@@ -862,7 +892,7 @@ fn finish_result(s: &Scn, expected: &[Vec<u8>], rp: Report, g: &GRep, o: &Obs) -
             (ok, out, count_lzip_members(&o.compressed))
         } else {
             let mut out = Vec::new();
-            let pd = preset_dict();
+            let pd = s.preset_dict();
             let mut r = LZMA2Reader::new(o.compressed.as_slice(), MT_DICT, if s.preset { Some(pd.as_slice()) } else { None });
             let ok = r.read_to_end(&mut out).is_ok();
             (ok, out, count_lzma2_units(&o.compressed))
